@@ -253,7 +253,7 @@ func run(c Case) (fs []failure, inconc string, facts map[string]bool, hist any) 
 		args [][]byte
 	}
 	var all []ex
-	redirects := 0
+	redirects, tryagains := 0, 0
 	var reqLog []string
 	for _, nd := range cs.Nodes {
 		lg, rq := nd.SnapshotLog()
@@ -265,6 +265,9 @@ func run(c Case) (fs []failure, inconc string, facts map[string]bool, hist any) 
 		for _, r := range rq {
 			if strings.HasPrefix(r.Reply, "-MOVED") || strings.HasPrefix(r.Reply, "-ASK") {
 				redirects++
+			}
+			if strings.HasPrefix(r.Reply, "-TRYAGAIN") {
+				tryagains++
 			}
 			reqLog = append(reqLog, fmt.Sprintf("%06d %s %s %v -> %s", r.Seq, nd.Addr(), r.Cmd, r.ArgsS, r.Reply))
 		}
@@ -304,6 +307,10 @@ func run(c Case) (fs []failure, inconc string, facts map[string]bool, hist any) 
 				sig := "per-key-order-skips"
 				if c.Pipeline && redirects > 0 {
 					sig = "per-key-order-skips:pipelined-redirect"
+				} else if tryagains > 0 && !c.Txn {
+					// known finding: a multi-key command answered TRYAGAIN (one of its keys already migrated) while a later single-key
+					// command of the same pipelined batch on the key that has not moved yet is executed by the same node
+					sig = "per-key-order-skips:tryagain-in-batch"
 				}
 				fs = append(fs, failure{sig, fmt.Sprintf("key %q: the target applied %v; write #%d (%s) took effect although #%d (%s) had not (source order %v)", k, obs, j, v, prev+1, src[prev+1], src)})
 				inverted = true
